@@ -787,6 +787,268 @@ func runProxy(o c03opts, idx int64, variant string) scenarioOut {
 	return out
 }
 
+// ---------------------------------------------------------------- a link that stops draining, then is cut
+
+// stallLink is a memnet pipe whose ends can stop draining in one direction: Send blocks (the session's writer sits
+// in Send, so the next forward waits for the writer: back-pressure) until the link is cut, then fails.
+type stallLink struct {
+	pipe    *memnet.Pipe
+	mu      sync.Mutex
+	stalled map[*memnet.End]bool
+	cutCh   chan struct{}
+	once    sync.Once
+}
+
+type stallEnd struct {
+	*memnet.End
+	l *stallLink
+}
+
+func (e *stallEnd) Send(b []byte) error {
+	e.l.mu.Lock()
+	st := e.l.stalled[e.End]
+	e.l.mu.Unlock()
+	if st {
+		<-e.l.cutCh
+
+		return io.ErrClosedPipe
+	}
+
+	return e.End.Send(b)
+}
+
+func (e *stallEnd) Close() error {
+	e.l.cut()
+
+	return nil
+}
+
+func (l *stallLink) cut() {
+	l.once.Do(func() { close(l.cutCh) })
+	l.pipe.Cut()
+}
+
+// sessBackend is a netceptor.Backend whose sessions are handed in by the harness (any BackendSession).
+type sessBackend struct {
+	mu  sync.Mutex
+	ctx context.Context
+	ch  chan netceptor.BackendSession
+}
+
+func (b *sessBackend) Start(ctx context.Context, _ *sync.WaitGroup) (chan netceptor.BackendSession, error) {
+	b.mu.Lock()
+	defer b.mu.Unlock()
+	b.ctx, b.ch = ctx, make(chan netceptor.BackendSession)
+
+	return b.ch, nil
+}
+
+func (b *sessBackend) attach(s netceptor.BackendSession) bool {
+	b.mu.Lock()
+	ctx, ch := b.ctx, b.ch
+	b.mu.Unlock()
+	if ch == nil {
+		return false
+	}
+	select {
+	case ch <- s:
+		return true
+	case <-ctx.Done():
+		return false
+	case <-time.After(5 * time.Second):
+		return false
+	}
+}
+
+// buildStallMesh is buildMesh with stallable links (registered in m.Links so that the mesh helpers see them).
+func buildStallMesh(seed int64, ids []string, links []string, o mesh.Opts) (*mesh.Mesh, map[string]*stallLink, error) {
+	m := mesh.New(o, seed)
+	for _, id := range ids {
+		m.Start(id)
+	}
+	sl := map[string]*stallLink{}
+	for i, l := range links {
+		ab := strings.Split(l, "-")
+		cost := 1.0
+		if len(ab) == 3 {
+			fmt.Sscanf(ab[2], "%g", &cost)
+		}
+		p := memnet.NewPipe(seed*1000 + int64(i))
+		k := &stallLink{pipe: p, stalled: map[*memnet.End]bool{}, cutCh: make(chan struct{})}
+		ba, bb := &sessBackend{}, &sessBackend{}
+		if err := m.Nodes[ab[0]].N.AddBackend(ba, netceptor.BackendConnectionCost(cost)); err != nil {
+			return nil, nil, err
+		}
+		if err := m.Nodes[ab[1]].N.AddBackend(bb, netceptor.BackendConnectionCost(cost)); err != nil {
+			return nil, nil, err
+		}
+		if !ba.attach(&stallEnd{p.A, k}) || !bb.attach(&stallEnd{p.B, k}) {
+			return nil, nil, fmt.Errorf("backend did not accept the session")
+		}
+		m.Links = append(m.Links, &mesh.Link{A: ab[0], B: ab[1], CostA: cost, CostB: cost, Pipe: p})
+		sl[ab[0]+"-"+ab[1]] = k
+	}
+	if !waitUntil(60*time.Second, 20*time.Millisecond, m.LooksConverged) {
+		return nil, nil, fmt.Errorf("mesh did not converge")
+	}
+
+	return m, sl, nil
+}
+
+// wedgedForwarder reports a goroutine that sits in forwardMessage's hand-over select in both of two samples taken
+// `gap` apart (same goroutine id): it is waiting to hand a datagram to the writer of a link.
+func wedgedForwarder(gap time.Duration) (string, bool) {
+	sample := func() map[string]string {
+		out := map[string]string{}
+		for _, g := range goroutines() {
+			if !strings.HasPrefix(g.State, "select") {
+				continue
+			}
+			for i, f := range g.Stack {
+				if strings.Contains(f, "forwardMessage") && i <= 2 {
+					who := "the origin's send path"
+					for _, f2 := range g.Stack {
+						if strings.Contains(f2, "runProtocol") {
+							who = "a transit node's session loop (runProtocol)"
+						}
+					}
+					out[g.ID] = who
+				}
+			}
+		}
+
+		return out
+	}
+	s1 := sample()
+	if len(s1) == 0 {
+		return "", false
+	}
+	time.Sleep(gap)
+	for id, who := range sample() {
+		if _, ok := s1[id]; ok {
+			return who, true
+		}
+	}
+
+	return "", false
+}
+
+// runStallCut: the transit link b-c of the active path a-b-c-d stops draining in the direction b->c while the
+// transfer runs, and is cut 300 ms later; the detour b-x-c enters b through the same upstream session a-b.
+func runStallCut(o c03opts, variant string, idx int64) scenarioOut {
+	tp := topos["cut_transit"]
+	out := scenarioOut{Name: "direct/stall_cut_transit/" + variant}
+	rng := rand.New(rand.NewSource(o.seed*7919 + idx))
+	m, sl, err := buildStallMesh(o.seed*100+idx, tp.ids, tp.links, mesh.Opts{RouteUpdate: 300 * time.Millisecond})
+	if err != nil {
+		out.Inconcl = err.Error()
+
+		return out
+	}
+	defer m.StopAll()
+	d, a, li, err := meshStream(m, tp.from, tp.to, "sink")
+	if err != nil {
+		out.Inconcl = out.Name + ": " + err.Error()
+
+		return out
+	}
+	defer li.Close()
+	stop := make(chan struct{})
+	defer close(stop)
+	applyFaults(m, rng, o.lossMax/2, stop)
+	sp := xferSpec{Name: out.Name, TotalAB: o.total, TotalBA: o.total, MaxChunk: o.maxChunk}
+	if variant == "oneway" {
+		sp.TotalBA = 0
+	}
+	out.Spec = sp
+	lg := &ioLog{}
+	moved := func() int64 {
+		lg.mu.Lock()
+		defer lg.mu.Unlock()
+		var n int64
+		for _, l := range lg.lines {
+			if l.Ev == "r" {
+				n += l.Len
+			}
+		}
+
+		return n
+	}
+	type verdict struct{ sig, what string }
+	vch := make(chan verdict, 1)
+	cutDone := make(chan struct{})
+	link := sl["b-c"]
+	go func() {
+		defer close(cutDone)
+		waitUntil(o.ceiling, time.Millisecond, func() bool { return moved() > (sp.TotalAB+sp.TotalBA)/4 })
+		link.mu.Lock()
+		link.stalled[link.pipe.A] = true // the end at b: b -> c stops draining
+		link.mu.Unlock()
+		lg.add(ioLine{Ev: "cut", Note: "stall"})
+		time.Sleep(300 * time.Millisecond)
+		if l := m.FindLink("b", "c"); l != nil {
+			l.Cut = true
+		}
+		link.cut()
+		lg.add(ioLine{Ev: "cut", Note: "transit"})
+		// oracle for "never": once the routes have settled on the detour, nobody may still be waiting to hand a
+		// datagram to the writer of the link that is gone
+		t0, before := time.Now(), moved()
+		for time.Since(t0) < 40*time.Second {
+			time.Sleep(2 * time.Second)
+			select {
+			case <-stop:
+				return
+			default:
+			}
+			if !m.LooksConverged() {
+				continue
+			}
+			now := moved()
+			if now != before {
+				before = now
+
+				continue
+			}
+			if who, ok := wedgedForwarder(3 * time.Second); ok && moved() == now && time.Since(t0) > 8*time.Second {
+				vch <- verdict{"reroute:forwarder-wedged-after-cut",
+					fmt.Sprintf("%v after the congested transit link b-c was cut and the routes settled on the detour b-x-c, %s is still waiting to hand a datagram to the writer of the vanished link; the stream has not moved a byte since (%d of %d read)", time.Since(t0).Round(time.Second), who, now, sp.TotalAB+sp.TotalBA)}
+				d.CloseConnection()
+				a.CloseConnection()
+
+				return
+			}
+		}
+	}()
+	r := runTransfer(lg, sp, meshEnd(d), meshEnd(a), o.seed*131+idx, o.ceiling)
+	_ = d.CloseConnection()
+	_ = a.CloseConnection()
+	out.Lines, out.Sig, out.What, out.Inconcl, out.Wall = lg.lines, r.sig, r.what, r.inconcl, r.wall.Seconds()
+	select {
+	case v := <-vch:
+		out.Sig, out.What, out.Inconcl = v.sig, v.what, ""
+	default:
+		cutAt, after := -1, 0
+		for i, l := range lg.lines {
+			if l.Ev == "cut" && l.Note == "transit" {
+				cutAt = i
+			} else if cutAt >= 0 && l.Ev == "r" {
+				after++
+			}
+		}
+		out.Detail = map[string]any{"cut": "b-c after stall", "cut_at_line": cutAt, "reads_after_cut": after}
+		if out.Sig == "" && out.Inconcl == "" && after == 0 {
+			out.Inconcl = out.Name + ": the link was stalled and cut too late to matter"
+		}
+		if out.Sig != "" {
+			out.Sig = "reroute-stall-transit:" + out.Sig
+		}
+	}
+	out.Faults = faultCounters(m)
+
+	return out
+}
+
 // ---------------------------------------------------------------- command
 
 func cmdC03(args []string) {
@@ -839,6 +1101,11 @@ func cmdC03(args []string) {
 			addDirect(tn, v, o.total)
 		}
 		addDirect("cut_transit", variants[rep%2*3], o.total) // bulk / oneway
+		if rep < 4 {
+			idx++
+			i, v := idx, variants[rep%2*3]
+			jobs = append(jobs, job{"direct/stall_cut_transit/" + v, func() scenarioOut { return runStallCut(o, v, i) }})
+		}
 		for _, v := range []string{"json", "halfclose", "string"}[:min(3, rep+2)] {
 			idx++
 			i, v := idx, v
